@@ -105,6 +105,18 @@ func newWorld(t *testing.T) *world {
 		}
 		_ = json.Unmarshal(body, &msg)
 		p := strings.Split(strings.TrimPrefix(req.URL.Path, "/hook/"), "/")
+		// a receiver that needs a few seconds (alerts named slow-…): the notification counts only when the request
+		// was still alive at the end — a flush has max(group_interval, 10 s) for its deliveries
+		for _, al := range msg.Alerts {
+			if strings.HasPrefix(al.Labels["alertname"], "slow-") {
+				select {
+				case <-time.After(3 * time.Second):
+				case <-req.Context().Done():
+					return
+				}
+				break
+			}
+		}
 		if len(p) == 2 {
 			w.mu.Lock()
 			for _, al := range msg.Alerts {
@@ -905,6 +917,11 @@ func TestInner(t *testing.T) {
 		for range hammerRounds {
 			big, nxt := cfg(), cfg()
 			lines = append(lines, fmt.Sprintf("reload %s big %s", big, hx.Pick(r, vias)), fmt.Sprintf("reload %s none hammer", nxt), "status")
+		}
+		// after reloads: the API still reads the marker the pipeline writes; a slow receiver still gets its 10 s
+		lines = append(lines, fmt.Sprintf("gmuted h%d", id))
+		if id%3 == 0 {
+			lines = append(lines, fmt.Sprintf("probe slow-%d -", id))
 		}
 		lines = append(lines, fmt.Sprintf("astatus s%d-1", id), "stop")
 		runCase(t, tr, repo, fmt.Sprintf("case %d kind=reload", id), lines)
